@@ -46,7 +46,7 @@ pub fn run(tier: Tier) -> i32 {
     let mut images: Vec<(String, Vec<u8>)> = vec![];
     let _ = &mut images;
     for f in &fams {
-        if f.name == "D/raw-K9" {
+        if !["D/matrix4x4", "D/raw-K3", "D/dual-K9"].contains(&f.name.as_str()) {
             continue;
         }
         for h in [vec![], vec![Op::Map(0), Op::LoadUser(0)]] {
